@@ -1,13 +1,28 @@
 /-
-  Certificate obligations, part 2 of 8 of the `patched` client system (kernel evaluation; one module per
-  part so that lake checks them in parallel). Assembled in `Lemmas/CliCert.lean`.
+  Certificate obligations, parts 16..23 of 64 of the `patched` client system (kernel evaluation; 8 modules
+  so that lake checks them in parallel; small parts keep the kernel's memory small).
+  Assembled in `Lemmas/CliCert.lean`.
 -/
 import KmipModel.Model.CliConn
 import KmipModel.Gen.CertCliConn
 namespace Kmip.CliCert
 open Kmip.CliLts Kmip.CliConn Kmip.Gen.CertCliConn
 
-theorem paClosed2 : partClosed (sys patched) codec certPatched paP2 = true := by decide +kernel
-theorem paSafe2 : partSafe codec (badFull patched) paP2 = true := by decide +kernel
+theorem paClosed16 : partClosed (sys patched) codec certPatched paP16 = true := by decide +kernel
+theorem paSafe16 : partSafe codec (badFull patched) paP16 = true := by decide +kernel
+theorem paClosed17 : partClosed (sys patched) codec certPatched paP17 = true := by decide +kernel
+theorem paSafe17 : partSafe codec (badFull patched) paP17 = true := by decide +kernel
+theorem paClosed18 : partClosed (sys patched) codec certPatched paP18 = true := by decide +kernel
+theorem paSafe18 : partSafe codec (badFull patched) paP18 = true := by decide +kernel
+theorem paClosed19 : partClosed (sys patched) codec certPatched paP19 = true := by decide +kernel
+theorem paSafe19 : partSafe codec (badFull patched) paP19 = true := by decide +kernel
+theorem paClosed20 : partClosed (sys patched) codec certPatched paP20 = true := by decide +kernel
+theorem paSafe20 : partSafe codec (badFull patched) paP20 = true := by decide +kernel
+theorem paClosed21 : partClosed (sys patched) codec certPatched paP21 = true := by decide +kernel
+theorem paSafe21 : partSafe codec (badFull patched) paP21 = true := by decide +kernel
+theorem paClosed22 : partClosed (sys patched) codec certPatched paP22 = true := by decide +kernel
+theorem paSafe22 : partSafe codec (badFull patched) paP22 = true := by decide +kernel
+theorem paClosed23 : partClosed (sys patched) codec certPatched paP23 = true := by decide +kernel
+theorem paSafe23 : partSafe codec (badFull patched) paP23 = true := by decide +kernel
 
 end Kmip.CliCert
